@@ -25,6 +25,7 @@ def run(chk, tier):
     chk.guarded(r_daycount_consts, P)
     chk.guarded(r_isoweek, P)
     chk.guarded(r_year_uses, P)
+    chk.guarded(r_mdf_box, P, tier)
     chk.guarded(r_cycle, P, tier)
     chk.assume("the branchy arithmetic that combines the verified tables (from_isoywd_opt spill, cycle_to_yo, succ/pred rollover) "
                "is not decided here")
@@ -450,3 +451,20 @@ def r_cycle(chk, P, tier):
     for dn, want in ((dn_max, last), (dn_max + 1, None), (dn_min, first), (dn_min - 1, None), (i32min, None), (i32max, None)):
         got = _yof_of(call(ND + "::from_num_days_from_ce_opt", [_c(dn)]))
         chk.expect(got == want, "from_num_days_from_ce_opt(%d)" % dn, "from_num_days_from_ce_opt(%d) = %s, expected %s" % (dn, got, want))
+
+
+def r_mdf_box(chk, P, tier):
+    """Mdf::new is the gate of from_ymd_opt / with_month / with_day: it accepts exactly month <= 12 and day <= 31 tested on the ARGUMENTS (a test on
+    the packed word comes after `month << 9` has already discarded high bits)"""
+    from rules import accept_boxes, hull
+    chk.rule("BOX.mdf_new", "Mdf::new returns Some exactly for month in 0..=12 and day in 0..=31, tested on the unshifted arguments", floor=2)
+    fn = "naive::internals::Mdf::new"
+    bs = accept_boxes(P, fn, {"month": ("arg", 1), "day": ("arg", 2)})
+    somes = [(b, o, p_) for b, o, p_ in bs if p_.ret[0] == "agg" and p_.ret[3] == "Some"]
+    if not somes:
+        raise AnchorLost("Mdf::new: no Some path")
+    for b, other, p_ in somes:
+        ok = not other and b["month"][1] == 12 and b["day"][1] == 31 and (b["month"][0] or 0) == 0 and (b["day"][0] or 0) == 0
+        chk.expect(ok, "Some path", "Mdf::new accepts month in %s, day in %s (uninterpreted conditions: %s); expected month <= 12 and day <= 31 on the arguments" % (
+            b["month"], b["day"], [pp(c[1])[:60] for c in other]), loc=P.loc(fn))
+    chk.expect(len(somes) >= 1, "paths", "no success path")
